@@ -25,6 +25,18 @@ def cl(k):
     return 1000 + 7 * k
 
 
+def amp3(k):
+    return 1000 + 3 * k
+
+
+def data_stim(cfg, cell, first=1, n=None):
+    """the data-fed stimulus of Integrate.tla (compartment 0), or None"""
+    if not cfg.get("dat"):
+        return None
+    n = cfg["tin"] if n is None else n
+    return cell.branch(0).comp(0).data_stimulate(jnp.asarray([float(amp3(k)) for k in range(first, first + n)]), None)
+
+
 def build(cfg, first=1, n=None):
     """Probe cell of Integrate.tla with the inputs of samples first .. first+n-1 inserted statically."""
     cell = probes.build_cell([3], K)
@@ -64,11 +76,12 @@ def state_toks(st):
 def run_item(it, opts, out):
     cfg, phase = it["cfg"], it["phase"]
     vs = opts["backends"][it["k"] % len(opts["backends"])]
-    sig = {"tin": cfg["tin"], "tmax": cfg["tmax"], "two": cfg["two"], "clamp": cfg["clamp"], "L": list(cfg["L"]),
+    sig = {"tin": cfg["tin"], "tmax": cfg["tmax"], "two": cfg["two"], "clamp": cfg["clamp"], "dat": cfg.get("dat", False), "L": list(cfg["L"]),
            "voltage_solver": vs}
     if phase == "refused":
         try:
-            jx.integrate(build(cfg), voltage_solver=vs, **kwargs(cfg))
+            c0 = build(cfg)
+            jx.integrate(c0, voltage_solver=vs, data_stimuli=data_stim(cfg, c0), **kwargs(cfg))
             out["mismatch"].append({"kind": "not_refused", **sig})
         except Exception:
             out["refused"] += 1
@@ -80,7 +93,8 @@ def run_item(it, opts, out):
         cell = build(cfg)
         before = (cell.nodes.to_json(orient="split"), {k: np.asarray(v).tolist() for k, v in cell.externals.items()},
                   {k: np.asarray(v).tolist() for k, v in cell.external_inds.items()}, cell.recordings.to_numpy().tolist())
-        recs, states = jx.integrate(cell, voltage_solver=vs, return_states=True, **kwargs(cfg))
+        ds = data_stim(cfg, cell)
+        recs, states = jx.integrate(cell, voltage_solver=vs, return_states=True, data_stimuli=ds, **kwargs(cfg))
         out["runs"] += 1
         if toks(recs) != want_recs:
             out["mismatch"].append({"kind": "recordings", **sig, "got": toks(recs), "want": want_recs})
@@ -93,18 +107,18 @@ def run_item(it, opts, out):
                  {k: np.asarray(v).tolist() for k, v in cell.external_inds.items()}, cell.recordings.to_numpy().tolist())
         if after != before:
             out["mismatch"].append({"kind": "module_changed", **sig})
-        again = jx.integrate(cell, voltage_solver=vs, **kwargs(cfg))
+        again = jx.integrate(cell, voltage_solver=vs, data_stimuli=ds, **kwargs(cfg))
         if not np.array_equal(np.asarray(again), np.asarray(recs)):
             out["mismatch"].append({"kind": "repeat_differs", **sig})
         if it["k"] % opts["modes_every"] == 0:
             # jit, and data_stimulate (functional inputs) vmapped over a batch of amplitudes
             kw = kwargs(cfg)
             with jax.disable_jit(False):
-                jit_out = jax.jit(lambda: jx.integrate(cell, voltage_solver=vs, **kw))()
+                jit_out = jax.jit(lambda: jx.integrate(cell, voltage_solver=vs, data_stimuli=data_stim(cfg, cell), **kw))()
             out["mode_runs"] += 1
             if not np.allclose(np.asarray(jit_out), np.asarray(recs), rtol=1e-12, atol=1e-9):
                 out["mismatch"].append({"kind": "jit_differs", **sig})
-            if vs != "jax.sparse":        # jax's spsolve has no batching rule: vmap is refused by JAX itself
+            if vs != "jax.sparse" and not cfg.get("dat"):        # jax's spsolve has no batching rule: vmap is refused by JAX itself
                 base = build({**cfg, "two": False})
                 base.delete_stimuli()
                 ks = range(1, cfg["tin"] + 1)
@@ -128,7 +142,7 @@ def run_item(it, opts, out):
                     else:
                         out["mismatch"].append({"kind": "vmap_raised", **sig, "err": type(e).__name__ + ": " + str(e)[:150]})
         # C07: manual stepping with the public init/step functions gives the same columns
-        if it["k"] % opts["manual_every"] == 0 and not cfg["L"]:
+        if it["k"] % opts["manual_every"] == 0 and not cfg["L"] and not cfg.get("dat"):
             init_fn, step_fn = build_init_and_step_fn(cell, voltage_solver=vs)
             st, params = init_fn([], None, None, DT)
             cols = [[tok(x) for x in list(np.asarray(st["v"])) + [np.asarray(st["A_s"])[0]]]]
@@ -137,6 +151,8 @@ def run_item(it, opts, out):
                 ext = {}
                 inr = k <= cfg["tin"]
                 stim = [float(amp(k)) if inr else 0.0] + ([float(amp2(k)) if inr else 0.0] if cfg["two"] else [])
+                if cfg.get("dat"):
+                    continue_manual = False
                 ext["i"] = jnp.asarray(stim)
                 if cfg["clamp"]:
                     ext["v"] = jnp.asarray([float(cl(k))])
@@ -148,9 +164,18 @@ def run_item(it, opts, out):
     elif phase == "split":
         n1 = it["n1"]
         c1 = build(cfg, 1, n1)
-        r1, s1 = jx.integrate(c1, voltage_solver=vs, return_states=True, delta_t=DT)
         c2 = build(cfg, n1 + 1, cfg["tin"] - n1)
-        r2, s2 = jx.integrate(c2, voltage_solver=vs, return_states=True, all_states=s1, delta_t=DT)
+        p1 = p2 = []
+        if it["k"] % 2 == 1:
+            # the same continuation with trainable initial states whose params are passed to both calls: the returned
+            # states, not the trainable initial values, must start the second call
+            for c_ in (c1, c2):
+                c_.make_trainable("v", verbose=False)
+                c_.branch(0).comp(0).make_trainable("A_s", verbose=False)
+            p1, p2 = c1.get_parameters(), c2.get_parameters()
+        r1, s1 = jx.integrate(c1, params=p1, voltage_solver=vs, return_states=True, data_stimuli=data_stim(cfg, c1, 1, n1), delta_t=DT)
+        r2, s2 = jx.integrate(c2, params=p2, voltage_solver=vs, return_states=True, all_states=s1,
+                              data_stimuli=data_stim(cfg, c2, n1 + 1, cfg["tin"] - n1), delta_t=DT)
         out["splits"] += 1
         joined = np.concatenate([np.asarray(r1), np.asarray(r2)[:, 1:]], axis=1)
         if toks(joined) != want_recs:
